@@ -72,18 +72,23 @@ def compile_many(cc, flags, srcs, odir, jobs=16):
         objs = list(ex.map(one, srcs))
     return objs
 
-def build_prdata(sc, repo=REPO):
-    """compile libprdata + pr_data.c (no sanitizer, -O1), run it -> xrayglob_inline.c.  Returns path."""
-    bdir = sc.path('b'); os.makedirs(bdir, exist_ok=True)
+def build_prdata(sc, repo=REPO, data_root=None, bname='b'):
+    """compile libprdata + pr_data.c (no sanitizer, -O1), run it -> xrayglob_inline.c.  Returns path.
+    `data_root`: directory containing `data/` (default: the repository itself)"""
+    bdir = sc.path(bname); os.makedirs(bdir, exist_ok=True)
     v = project_version(repo)
     with open(os.path.join(bdir, 'config.h'), 'w') as f: f.write(CONFIG_H % (v, v))
     fl = cflags(repo, bdir) + ['-O1', '-g0', '-w']
     srcs = [os.path.join(repo, 'src', s) for s in PRDATA_LIB + ['pr_data.c']]
-    objs = compile_many('clang-14', fl, srcs, sc.path('o_prdata'))
+    if os.path.isdir(sc.path('o_prdata')) and os.path.exists(sc.path('prdata')):
+        objs = []
+    else:
+        objs = compile_many('clang-14', fl, srcs, sc.path('o_prdata'))
     exe = sc.path('prdata')
-    run(['clang-14'] + objs + ['-lm', '-o', exe])
+    if not os.path.exists(exe):
+        run(['clang-14'] + objs + ['-lm', '-o', exe])
     out = os.path.join(bdir, 'xrayglob_inline.c')
-    p = subprocess.run([exe, repo, out], capture_output=True, text=True)
+    p = subprocess.run([exe, data_root or repo, out], capture_output=True, text=True)
     if p.returncode != 0:
         raise BuildError('prdata failed (exit %d): %s %s' % (p.returncode, p.stdout[-2000:], p.stderr[-2000:]))
     return out
